@@ -203,3 +203,17 @@ def worker_copies(graph: Any, scenario: str) -> list[Finding]:
         wid = n.params.get("nets")
         per_worker.setdefault(wid, {})[trav.bridged_name(n)] = sorted(trav.bridged_name(p) for p in n.setup_nodes if not p.is_flat() and not p.is_shared_root())
     return out
+
+
+REGISTERS = ("_picked_by_setup_nodes", "_dropped_setup_nodes", "_picked_by_cleanup_nodes", "_dropped_cleanup_nodes")
+
+
+def visits_kept(run: Any) -> list[Finding]:
+    """Progress made by one worker is seen by all: a visit once recorded stays in a register some node still uses."""
+    out: list[Finding] = []
+    live = {id(getattr(n, reg)) for n in run.graph.nodes for reg in REGISTERS}
+    for register, about, wid in run.visits:
+        if id(register) not in live:
+            out.append((f"C09 {run.scenario.name} recorded visits lost", f"the visit of {wid} at {_short(about)} was recorded in a register that no node uses any more (it was replaced when an equivalent copy was linked)", {}))
+            break
+    return out
